@@ -52,6 +52,9 @@ type Baseline struct {
 	Clean      []string `json:"clean_functions"`
 	Undecided  []string `json:"undecided"`
 	Rejected   []string `json:"rejected"`
+	// Kept records, per function, the auto-invariant candidates that survived Houdini
+	// on the unchanged tree ("loopkey: desc"); quick runs start from this set.
+	Kept map[string][]string `json:"kept_candidates,omitempty"`
 }
 
 func baselinePath(id string) string { return filepath.Join(verifDir, "spec", id+".baseline.json") }
@@ -190,7 +193,12 @@ func (r *propRun) exec() int {
 			blUndecided[id] = true
 		}
 	}
-	runner.Skip = func(id string) bool { return blUndecided[id] }
+	runner.Skip = func(o *govc.Oblig) bool {
+		if def.Select != nil && !def.Select(o) {
+			return true
+		}
+		return blUndecided[o.ID]
+	}
 	roots := map[string]bool{}
 	for _, f := range def.Roots {
 		roots[f] = true
@@ -219,7 +227,17 @@ func (r *propRun) exec() int {
 		} else {
 			opt.AutoInv = true
 		}
-		fo := runner.VerifyFunction(prog, fi, opt)
+		var seedKept []string
+		if bl != nil && !r.update {
+			seedKept = bl.Kept[u.Func]
+		}
+		fo := runner.VerifyFunctionSeeded(prog, fi, opt, seedKept)
+		if newBL.Kept == nil {
+			newBL.Kept = map[string][]string{}
+		}
+		if len(fo.Kept) > 0 {
+			newBL.Kept[u.Func] = fo.Kept
+		}
 		r.outcomes = append(r.outcomes, fo)
 		if fo.Reject != "" {
 			r.rejected = append(r.rejected, u.Func+": "+fo.Reject)
@@ -242,6 +260,9 @@ func (r *propRun) exec() int {
 					r.broken = append(r.broken, "vacuity: exit of "+u.Func+" is unreachable under the assumed contracts")
 				}
 				continue
+			}
+			if def.Select != nil && !def.Select(o) {
+				continue // belongs to another property's claim
 			}
 			rec := oblRecord{ID: o.ID, Kind: o.Kind, Func: o.Func, Pos: o.Pos, Status: res.R.Status, Solver: res.R.Solver, TimeS: res.R.TimeS}
 			switch {
